@@ -52,6 +52,9 @@ def step (r : Registry) (toks : List String) : Registry × String :=
   | ["errdev", l] => match l.toInt? with
     | some l => (r, boolStr (r.errorDevice.lookup l).isSome)
     | none => (r, "bad-op")
+  | ["setcolors", l, fg, bg] => match l.toInt?, fg.toInt?, bg.toInt? with
+    | some l, some fg, some bg => (r.setColors l fg bg, "ok")
+    | _, _, _ => (r, "bad-op")
   | ["colors", l] => match l.toInt? with
     | some l => (r, boolStr (r.colors.lookup l).isSome)
     | none => (r, "bad-op")
